@@ -2,6 +2,7 @@ package checks
 
 import (
 	"fmt"
+	dtpb "github.com/google/fhir/go/proto/google/fhir/proto/r4/core/datatypes_go_proto"
 	"math"
 	"strings"
 
@@ -230,8 +231,8 @@ func init() {
 	}
 
 	core.Register(&core.Check{
-		ID: "C10",
-		Rule: "collections = all sequences of length 0..3 (quick) / 0..4 (thorough) over the 8-item alphabet {1, 1(dup), 2, 1.0, 'a', nameA, nameA'(equal copy), nameB} supplied as an environment variable, x 13 criteria with harness-computed three-valued truth (where/exists/all/select), x all n in [-3,len+3] u {MinInt32,MaxInt32} (take/skip/indexer/first/tail/last), distinct/isDistinct/empty/count; all ordered pairs of collections of length <=2 (quick) / <=3 (thorough) for exclude/intersect; path-derived collections of hand-sized resources for the relational equations and extension(url); results compared by pointer identity for FHIR elements and by type+value for System items; non-trivial = distinct (collection, program, outcome)",
+		ID:          "C10",
+		Rule:        "collections = all sequences of length 0..3 (quick) / 0..4 (thorough) over the 8-item alphabet {1, 1(dup), 2, 1.0, 'a', nameA, nameA'(equal copy), nameB} supplied as an environment variable, x 13 criteria with harness-computed three-valued truth (where/exists/all/select), x all n in [-3,len+3] u {MinInt32,MaxInt32} (take/skip/indexer/first/tail/last), distinct/isDistinct/empty/count; all ordered pairs of collections of length <=2 (quick) / <=3 (thorough) for exclude/intersect; path-derived collections of hand-sized resources for the relational equations and extension(url); results compared by pointer identity for FHIR elements and by type+value for System items; non-trivial = distinct (collection, program, outcome)",
 		Assumptions: []string{"the reference equality partition of the 8-item alphabet (1 = 1.0; equal copies of a complex element are equal) is hand-written and agrees with C05's reference comparator"},
 		Subs: func(tier string) []core.Sub {
 			maxLen, pairLen := 4, 3
@@ -676,6 +677,46 @@ func init() {
 						// all(p) = (where(p).count() = count()) whenever p is Boolean-valued and non-empty on every item (true of these criteria)
 						if ral.OK() && rcnt.OK() && ral.String() != rcnt.String() {
 							r.Fail(c10Key("path-all", "all(p)!=(where(p).count()=count())"), core.W{"path": p.path, "criterion": cr, "all(p)": ral.String(), "count-eq": rcnt.String()})
+						}
+					}
+					// select(P) is P evaluated on each item on its own, flattened in order: the projection is an
+					// arbitrary expression (indexers, subsetting, counts inside it are per item)
+					for _, proj := range []string{"$this", "id", "extension[0]", "extension.first()", "extension.last()", "extension.take(1)", "extension.count()", "children()[0]", "children().first()", "children().last()",
+						"children().take(2).count()", "children().count()", "given[0]", "given[1]", "given.first()", "given.last()", "given.count()", "$this.given[0] & '!'", "line[0]", "coding[0].code", "iif(children().count() > 1, children()[1], children()[0])"} {
+						whole := run(r, p.path+".select("+proj+")", nil, in)
+						var parts []any
+						perItemOK := true
+						for k := 0; k < L && perItemOK; k++ {
+							one := run(r, fmt.Sprintf("(%s)[%d].select(%s)", p.path, k, proj), nil, in)
+							if !one.OK() {
+								perItemOK = false
+								break
+							}
+							parts = append(parts, []any(one.Coll)...)
+						}
+						r.Nontrivial(p.path, "select", proj, whole.String())
+						if whole.Panic != nil {
+							r.Fail(c10Key("path-select", "per-item", c10Disc(whole)), core.W{"src": p.path + ".select(" + proj + ")"})
+							continue
+						}
+						if perItemOK != whole.OK() {
+							if perItemOK { // every item alone projects fine, the whole does not (the converse is legitimate: mixed types)
+								r.Fail(c10Key("path-select", "per-item", "whole-fails-items-succeed"), core.W{"src": p.path + ".select(" + proj + ")", "got": whole.String()})
+							}
+							continue
+						}
+						sameSeq := len(whole.Coll) == len(parts)
+						for k := 0; sameSeq && k < len(parts); k++ {
+							if c10Same(whole.Coll[k], parts[k]) {
+								continue
+							}
+							// the reference string of a Reference is synthesised anew by every evaluation: equal text is all there is
+							sa, oka := whole.Coll[k].(*dtpb.String)
+							sb, okb := parts[k].(*dtpb.String)
+							sameSeq = oka && okb && sa.GetValue() == sb.GetValue()
+						}
+						if perItemOK && !sameSeq {
+							r.Fail(c10Key("path-select", "per-item", "select(P)!=concatenation-of-P-per-item", lenClass(L)), core.W{"src": p.path + ".select(" + proj + ")", "got": whole.String(), "want": lib.ShowColl(parts)})
 						}
 					}
 					for _, u := range p.exturls {
